@@ -12,7 +12,7 @@ for cfg in ("default",):
     p = facts.extract(cfg, verbose=True)
     print("facts ok:", cfg, p)
 import os
-for cfg in ("family", "positive"):
+for cfg in ("family", "positive", "family_big"):
     if os.path.isdir(facts.CONFIGS[cfg]["dir"]):
         p = facts.extract(cfg, verbose=True)
         print("facts ok:", cfg, p)
